@@ -132,9 +132,19 @@ class _Oracle:
         self.iscale = max(1e-300, float(self.Dinv.abs().max()))
 
 
+def _strip1(shape):
+    sh = list(shape)
+    while len(sh) > 2 and sh[0] == 1:
+        sh.pop(0)
+    return tuple(sh)
+
+
 def _rel(a, b, scale):
     if tuple(a.shape) != tuple(b.shape):
-        return float("inf")
+        # a factor that only lacks leading size-1 batch dimensions (Lanczos roots drop them: C06 owns shape exactness) is compared by value
+        if _strip1(a.shape) != _strip1(b.shape):
+            return float("inf")
+        a, b = a.reshape(_strip1(a.shape)), b.reshape(_strip1(b.shape))
     if a.numel() == 0:
         return 0.0
     d = (a.to(b.dtype) - b).abs()
@@ -159,7 +169,7 @@ def _tri_struct(torch, opv, what):
     """a TriangularLinearOperator must hold a triangular tensor of the declared orientation"""
     from linear_operator.operators.triangular_linear_operator import TriangularLinearOperator
 
-    if isinstance(opv, TriangularLinearOperator):
+    if isinstance(opv, TriangularLinearOperator) and hasattr(opv, "upper"):  # (Diag operators subclass it without an orientation)
         T = opv.to_dense()
         want = T.triu() if opv.upper else T.tril()
         if not torch.equal(T, want):
@@ -350,6 +360,25 @@ def _alphabet():
     return A
 
 
+# quick tier: prefixes / finals of the length-3 histories, prefixes after which ALL derivations are checked
+P3_QUICK = {"cholesky(upper=False)@dflt", "root_decomposition()@dflt", "root_decomposition()@small", "root_decomposition(method=None)@dflt", "root_decomposition(method=symeig)@dflt",
+            "root_decomposition(method=lanczos)@dflt", "root_inv_decomposition()@dflt", "root_inv_decomposition()@small", "root_inv_decomposition(method=lanczos)@dflt",
+            "root_inv_decomposition(method=symeig)@dflt", "diagonalization()@dflt", "svd@dflt"}
+R3_QUICK = {"cholesky(upper=False)@dflt", "cholesky(upper=True)@dflt", "root_decomposition()@dflt", "root_decomposition()@small", "root_decomposition()@small_off",
+            "root_decomposition(method=None)@dflt", "root_inv_decomposition()@dflt", "root_inv_decomposition()@small", "root_inv_decomposition(method=None)@dflt",
+            "diagonalization()@dflt", "solve@dflt", "solve@small", "logdet@dflt", "inv_quad_logdet@dflt", "inv_quad_logdet@small", "zero_mean_mvn_samples@dflt"}
+DERIVE_ALL_QUICK = {"to_dense@dflt", "cholesky(upper=False)@dflt", "root_decomposition()@dflt", "root_inv_decomposition(method=lanczos)@dflt", "diagonalization()@dflt", "svd@dflt",
+                    "logdet@dflt", "solve@small"}
+
+
+def _is_root_writer(s):
+    return s["rootw"] and (s["name"].startswith("root_decomposition") or s["name"].startswith("cholesky"))
+
+
+def _is_invroot_writer(s):
+    return s["rootw"] and s["name"].startswith("root_inv_decomposition")
+
+
 def _floors(dt_is_f32):
     # tolerance of the method classes (relative): direct factorizations / iterative (Lanczos, CG, pivoted Cholesky) / stochastic trace estimates
     return {"direct": 5e-4 if dt_is_f32 else 1e-8, "iter": 2e-2 if dt_is_f32 else 1e-5, "loose": 2e-2 if dt_is_f32 else 1e-5, "stoch": 0.5}
@@ -365,25 +394,42 @@ def _run(sym, op, O):
         return "exc", e
 
 
-def _judge(sym, got, ref, floors):
+def _usable(ref, sym, floors):
+    """a fresh-copy result can serve as reference only if it is itself a sane answer (C04-C06 own the rest)"""
+    k, r = ref
+    return k == "ok" and r is not None and r.struct is None and r.dtype_ok and r.err <= floors[sym["cls"]]
+
+
+def _hist_floor(sym, prefix, floors):
+    """tolerance of the methods involved: an iterative method anywhere in the history may legitimately leave a cached
+    factor of iterative accuracy that a later direct query reuses"""
+    f = floors[sym["cls"]]
+    for p in prefix:
+        if p["cls"] != "direct" or p["ctx"] != "dflt":
+            f = max(f, floors["loose"])
+    return f
+
+
+def _judge(sym, got, ref, floors, prefix=()):
     """got/ref: outputs of _run on the history state / on the fresh copy.  returns (ok, detail)"""
     kind, r = got
-    rk, rr = ref
-    if rk == "exc":
-        return True, ""  # the query is not supported for this operator at all (decided on the fresh copy): not a history effect
+    if not _usable(ref, sym, floors):
+        return True, ""  # the query has no sane answer on a fresh copy of this operator: not a history effect
+    rr = ref[1]
     if kind == "exc":
         return False, f"raised {type(r).__name__}: {str(r)[:200]} (the fresh copy answers this query)"
     if r.struct:
         return False, r.struct
     if not r.dtype_ok:
         return False, "dtype differs from the operator's"
-    lim = max(floors[sym["cls"]], 4 * rr.err)
+    fl = _hist_floor(sym, prefix, floors)
+    lim = max(fl, 4 * rr.err)
     if not r.err <= lim:
-        return False, f"error vs dense oracle {r.err:.3e} > max(method tolerance {floors[sym['cls']]:.0e}, 4 x fresh error {rr.err:.2e})"
+        return False, f"error vs dense oracle {r.err:.3e} > max(tolerance of the methods involved {fl:.0e}, 4 x fresh error {rr.err:.2e})"
     if sym["cls"] == "direct" and r.extra == rr.extra:
         for a, b in zip(r.canon, rr.canon):
             sc = max(1.0, float(b.abs().max())) if b.numel() else 1.0
-            if _rel(a, b, sc) > floors["direct"] * 10:
+            if _rel(a, b, sc) > fl * 10:
                 return False, f"result differs entry-wise from the fresh copy's by {_rel(a, b, sc):.3e} although the query is deterministic (another method / orientation served?)"
     return True, ""
 
@@ -428,7 +474,9 @@ def _validate_caches(torch, obj, D64, floors, path, out, depth=0):
                 R = _dn(val.root).to(torch.float64)
                 e = max(_rel(R @ R.mT, D64, dscale), _rel(val.to_dense(), D64, dscale))
                 st = _tri_struct(torch, val.root, "cached root")
-                out.append((desc, st is None and e <= loose, st or f"|R R^T - D| = {e:.2e} (root type {type(val.root).__name__})"))
+                out.append((desc, e <= loose, f"|R R^T - D| = {e:.2e} (root type {type(val.root).__name__})"))
+                if st:
+                    out.append((desc, False, st))
             elif name == "root_inv_decomposition":
                 if Dinv is None:
                     Dinv = torch.linalg.inv(D64)
@@ -436,7 +484,9 @@ def _validate_caches(torch, obj, D64, floors, path, out, depth=0):
                 isc = max(1e-300, float(Dinv.abs().max()))
                 e = max(_rel(R @ R.mT, Dinv, isc), _rel(val.to_dense(), Dinv, isc))
                 st = _tri_struct(torch, val.root, "cached inverse root")
-                out.append((desc, st is None and e <= loose, st or f"|R R^T - D^-1| = {e:.2e} (relative)"))
+                out.append((desc, e <= loose, f"|R R^T - D^-1| = {e:.2e} (relative)"))
+                if st:
+                    out.append((desc, False, st))
             elif name in ("diagonalization", "symeig"):
                 evals, evecs = val
                 if evecs is None:
@@ -549,7 +599,7 @@ def _battery():
     ]
 
 
-def _check_derived(torch, rec, cname, label, state, O, seed, floors, which=None, hist="", derivable=None):
+def _check_derived(torch, rec, cname, label, state, O, seed, floors, which=None, hist="", derivable=None, mini=False, refcache=None):
     """derive operators from ``state`` (an operator with some query history), validate the caches they carry and query them"""
     import copy
 
@@ -581,18 +631,29 @@ def _check_derived(torch, rec, cname, label, state, O, seed, floors, which=None,
             # (1) every cache entry carried by the derived operator must be valid for the derived matrix
             entries = []
             _validate_caches(torch, der, Dd, floors, "", entries)
-            bad = [f"{d}: {det}" for d, ok, det in entries if not ok]
+            bad_s = [f"{d}: {det}" for d, ok, det in entries if not ok and "holds a non-triangular matrix" in det]
+            bad = [f"{d}: {det}" for d, ok, det in entries if not ok and "holds a non-triangular matrix" not in det]
+            rec.check(f"derived_cache_structure/{dname}@{cx}/{cname}", lab, not bad_s, "; ".join(bad_s[:3]))
             rec.check(f"derived_cache_valid/{dname}@{cx}/{cname}", lab, not bad, "; ".join(bad[:3]))
             # (2) queries on the derived operator == queries on a cache-free copy of it
             Od = _Oracle(torch, Dd.to(O.dt), seed + 1)
             for q in _battery():
-                try:
-                    fresh = der.clone()
-                except Exception:  # noqa
-                    break
-                ref = _run(q, fresh, Od)
+                if mini and q["name"] not in ("root_decomposition()@dflt", "root_inv_decomposition()@dflt", "inv_quad_logdet@dflt"):
+                    continue
+                rk = (dname, cx, q["name"])
+                if refcache is None or rk not in refcache:
+                    # the cache-free copy of the derived operator gives the same answer whatever the history of the source was
+                    try:
+                        fresh = der.clone()
+                    except Exception:  # noqa
+                        break
+                    r = _run(q, fresh, Od)
+                    if refcache is not None:
+                        refcache[rk] = r
+                else:
+                    r = refcache[rk]
                 got = _run(q, _fork(der), Od)
-                ok, det = _judge(q, got, ref, floors)
+                ok, det = _judge(q, got, r, floors)
                 rec.check(f"derived_query/{dname}@{cx}/{cname}", f"{lab}|query={q['name']}", ok, det)
 
 
@@ -632,18 +693,13 @@ def rtc_histories(case_names, tier):
             ref = {}
             for s in A:
                 ref[s["name"]] = _run(s, _fork(op0), O)
-                k, r = ref[s["name"]]
-                # the fresh copy itself must be sane, otherwise the symbol is not usable as a reference (C04-C06 own that)
-                usable = k == "ok" and r.struct is None and r.err <= max(floors[s["cls"]], 1e-300) * (1 if s["cls"] != "stoch" else 1)
-                if not usable:
-                    ref[s["name"]] = ("exc", None)
-                rec.check(f"reference_usable/{cname}", f"{label}|{s['name']}", True, nontrivial=False)
-            F = [s for s in A if ref[s["name"]][0] == "ok"]
-            P3 = [s for s in F if s["p3"]]
-            R3 = [s for s in F if s["r3"]]
-            rec.check(f"alphabet/{cname}", label, len(F) >= 10, f"only {len(F)} of {len(A)} symbols usable on a fresh copy: {[s['name'] for s in A if ref[s['name']][0] != 'ok']}")
+                rec.check(f"reference_usable/{cname}", f"{label}|{s['name']}", True, nontrivial=_usable(ref[s["name"]], s, floors))
+            F = [s for s in A if _usable(ref[s["name"]], s, floors)]
+            P3 = [s for s in F if s["p3"] and (tier != "quick" or s["name"] in P3_QUICK)]
+            R3 = [s for s in F if s["r3"] and (tier != "quick" or s["name"] in R3_QUICK)]
+            rec.check(f"alphabet/{cname}", label, len(F) >= 10, f"only {len(F)} of {len(A)} symbols usable on a fresh copy: {[s['name'] for s in A if s not in F]}")
 
-            derivable = {}
+            derivable, refcache = {}, {}
 
             def confirm(seq):
                 """re-execute a failing sequence from scratch on a newly built operator; returns (reproduced, detail)"""
@@ -651,12 +707,12 @@ def rtc_histories(case_names, tier):
                 got = None
                 for s in seq:
                     got = _run(s, op, O)
-                return _judge(seq[-1], got, ref[seq[-1]["name"]], floors)
+                return _judge(seq[-1], got, ref[seq[-1]["name"]], floors, seq[:-1])
 
             def leaf(state, seq):
                 s = seq[-1]
                 got = _run(s, _fork(state), O)
-                ok, det = _judge(s, got, ref[s["name"]], floors)
+                ok, det = _judge(s, got, ref[s["name"]], floors, seq[:-1])
                 hist = " ; ".join(x["name"] for x in seq[:-1])
                 lab = f"{label}|history=[{hist}]|query={s['name']}"
                 if not ok:
@@ -675,9 +731,9 @@ def rtc_histories(case_names, tier):
                 rec.check(f"cache_valid/{cname}", f"{label}|history=[{hist}]", not bad, "; ".join(bad[:3]))
                 rec.check(f"cache_entries_seen/{cname}", f"{label}|history=[{hist}]", True, nontrivial=bool(entries))
                 if derive == "all":
-                    _check_derived(torch, rec, cname, label, state, O, seed, floors, None, hist, derivable)
-                elif derive == "roots":
-                    _check_derived(torch, rec, cname, label, state, O, seed, floors, ("add_low_rank", "cat_rows"), hist, derivable)
+                    _check_derived(torch, rec, cname, label, state, O, seed, floors, None, hist, derivable, refcache=refcache)
+                elif derive in ("roots", "roots2"):
+                    _check_derived(torch, rec, cname, label, state, O, seed, floors, ("add_low_rank", "cat_rows"), hist, derivable, mini=derive == "roots2", refcache=refcache)
 
             # ---- 2./3./4. trie
             deep = first_instance or tier != "quick"  # length-3 histories / length-2 derivations: first instance of a case only (quick)
@@ -689,17 +745,18 @@ def rtc_histories(case_names, tier):
                 k1, _ = _run(p1, s1, O)
                 if k1 != "ok":
                     continue
-                node_checks(s1, [p1], "all" if p1["writer"] else None)
+                node_checks(s1, [p1], "all" if (p1["writer"] and (tier != "quick" or p1["name"] in DERIVE_ALL_QUICK)) else ("roots" if p1["rootw"] else None))
                 for f in F:
                     leaf(s1, [p1, f])
-                if not (deep and p1["p3"]):
+                if not (deep and p1 in P3):
                     continue
                 for p2 in P3:
                     s2 = _fork(s1)
                     k2, _ = _run(p2, s2, O)
                     if k2 != "ok":
                         continue
-                    node_checks(s2, [p1, p2], "roots" if (p1["rootw"] and p2["rootw"]) else None)
+                    pair = (_is_root_writer(p1) and _is_invroot_writer(p2)) or (_is_invroot_writer(p1) and _is_root_writer(p2)) or (p1["rootw"] and p2["rootw"] and tier != "quick")
+                    node_checks(s2, [p1, p2], "roots2" if pair else None)
                     for f in R3:
                         leaf(s2, [p1, p2, f])
             first_instance = False
@@ -713,7 +770,7 @@ def rtc_histories(case_names, tier):
                     got = None
                     for i, s in enumerate(seq):
                         got = _run(s, op, O)
-                        ok, det = _judge(s, got, ref[s["name"]], floors)
+                        ok, det = _judge(s, got, ref[s["name"]], floors, seq[:i])
                         hist = " ; ".join(x["name"] for x in seq[:i])
                         rec.check(f"history/{s['name'].split('@')[0].split('(')[0]}/{cname}", f"{label}|history=[{hist}]|query={s['name']}|scratch", ok, det)
                     entries = []
